@@ -333,6 +333,29 @@ func (o *dexOracle) afterC06(w *World, ev *Event, res Result) *Violation {
 			return v
 		}
 	}
+	// pool creation is the first deposit: it takes at most the offered coins (plus the creation fee in that denomination)
+	if txOK(ev, res) && o.pre.valid {
+		var offered sdk.Coins
+		var app uint64
+		switch m := o.pre.msg.(type) {
+		case *liqtypes.MsgCreatePool:
+			offered, app = m.DepositCoins, m.AppId
+		case *liqtypes.MsgCreateRangedPool:
+			offered, app = m.DepositCoins, m.AppId
+		}
+		if offered != nil {
+			fee := w.dexParams(app).PoolCreationFee
+			now := w.App.BankKeeper.GetAllBalances(w.Ctx(), o.pre.signer.Addr)
+			w.Stats.Probe("c06.pool_creation_checked")
+			for _, c := range offered {
+				taken := o.pre.bals.AmountOf(c.Denom).Sub(now.AmountOf(c.Denom))
+				if taken.GT(c.Amount.Add(fee.AmountOf(c.Denom))) {
+					return &Violation{Property: "C06", OracleID: "c06.deposit_takes_more_than_offered", Signature: "pool_creation",
+						Detail: fmt.Sprintf("%s: creator offered %s (creation fee %s) and was debited %s %s", ev.Tag, c, fee, taken, c.Denom)}
+				}
+			}
+		}
+	}
 	// ranged pools: price within [min, max]
 	ctx := w.Ctx()
 	for _, app := range w.Dex.AppIDs {
